@@ -162,9 +162,45 @@ fn generated_grammars(quick: bool) -> Vec<SpecGrammar> {
     out
 }
 
+/// negated token expressions <[^r1,r2,..]>: every ordered list of one or two (thorough: three)
+/// distinct ranges from a menu whose end points touch, overlap and leave gaps; the denoted set is
+/// the complement computed here, independently of the engine's range arithmetic
+fn negated_grammars(quick: bool) -> Vec<SpecGrammar> {
+    let menu: Vec<(u32, u32)> = vec![(0, 0), (0, 3), (1, 1), (4, 4), (4, 7), (5, 5), (8, 16), (8, 17), (17, 17), (1, 5), (3, 6), (6, 7)];
+    let mut lists: Vec<Vec<(u32, u32)>> = vec![];
+    for a in menu.iter() {
+        lists.push(vec![*a]);
+        for b in menu.iter() {
+            if a == b {
+                continue;
+            }
+            lists.push(vec![*a, *b]);
+            if !quick {
+                for c in menu.iter() {
+                    if c != a && c != b {
+                        lists.push(vec![*a, *b, *c]);
+                    }
+                }
+            }
+        }
+    }
+    let mut out = vec![];
+    for (i, l) in lists.iter().enumerate() {
+        let ids: Vec<u32> = (0..18u32).filter(|t| !l.iter().any(|(a, b)| a <= t && t <= b)).collect();
+        if ids.is_empty() {
+            continue;
+        }
+        let txt: Vec<String> = l.iter().map(|(a, b)| if a == b { format!("{a}") } else { format!("{a}-{b}") }).collect();
+        let lark = format!("start: \"a\" <[^{}]> \"b\"", txt.join(","));
+        out.push(SpecGrammar { name: format!("neg-{i}"), lark, generated: true, bnf: Bnf { nts: vec![vec![alt(cat(vec![t("a"), vec![tok(&ids)], t("b")]))]] }, wildcard: ids.contains(&17) });
+    }
+    out
+}
+
 fn grammars(quick: bool) -> Vec<SpecGrammar> {
     let mut v = hand_grammars();
     v.extend(generated_grammars(quick));
+    v.extend(negated_grammars(quick));
     v
 }
 
@@ -431,6 +467,6 @@ pub fn run(ctx: &Ctx) -> Coverage {
         ctx.machinery_error("vacuous run: no token-reference position reached");
     }
     Coverage::StateGraph {
-        rule: format!("17 hand-written grammars plus every generated grammar P X S | P X? S | P X+ S | P (X | \"c\")* S (P in \"\", a, ab; S in \"\", b, ab; X one of 12 token expressions or an alternation of two; {} grammars in all, ambiguous members skipped) mixing text with <name>, <[id]>, <[a-b]>, <[a,b]>, <[^...]>, <[*]> and 6 text-only grammars (JSON, regex, ~/&) over an 18-token vocabulary with special tokens named like grammar text, a bare marker token, a special token named [3], and ordinary tokens spelling special names; BFS over the product (real engine, reference Earley chart with token-reference terminals) to depth {depth}; in every state every token id is compared with the reference and committed/validated; plus tokenisation of spelled-out special names and marker forms", gs.len()),
+        rule: format!("17 hand-written grammars plus every generated grammar P X S | P X? S | P X+ S | P (X | \"c\")* S (P in \"\", a, ab; S in \"\", b, ab; X one of 12 token expressions or an alternation of two; {} grammars in all, ambiguous members skipped; plus every negated expression <[^r1,r2(,r3)]> over a 12-range menu with touching, overlapping and gapped ranges) mixing text with <name>, <[id]>, <[a-b]>, <[a,b]>, <[^...]>, <[*]> and 6 text-only grammars (JSON, regex, ~/&) over an 18-token vocabulary with special tokens named like grammar text, a bare marker token, a special token named [3], and ordinary tokens spelling special names; BFS over the product (real engine, reference Earley chart with token-reference terminals) to depth {depth}; in every state every token id is compared with the reference and committed/validated; plus tokenisation of spelled-out special names and marker forms", gs.len()),
     }
 }
